@@ -1809,7 +1809,7 @@ pub fn run(rep: &Report) {
     }
     let mut walls = serde_json::Map::new();
     let random = SeqStage { name: "seq-random" };
-    let conc = ConcStage { reps: rep.tier.pick(16, 40), timeout: Duration::from_secs(60) };
+    let conc = ConcStage { reps: rep.tier.pick(16, 32), timeout: Duration::from_secs(60) };
 
     // golden cases first (smoke test of each stage; they also become the evidence samples)
     if only.is_none() {
@@ -1861,7 +1861,7 @@ pub fn run(rep: &Report) {
     });
     timed("concurrent", &|| {
         rep.run_regressions(&conc);
-        rep.explore(&conc, rep.tier.pick(500, 12_000), 2_400);
+        rep.explore(&conc, rep.tier.pick(500, 6_000), 2_400);
     });
     rep.extra("stage_wall_s", J::Object(walls));
     let (busy, broken) = (CHILD_BUSY.load(Ordering::SeqCst), CHILD_BROKEN.load(Ordering::SeqCst));
